@@ -171,6 +171,25 @@ def r2(F, R):
         R.check(from_catch or from_fmt, f"payload/{name}@{F.root_fn(b).short.rsplit('::', 1)[-1]}", s,
                 "failure payload derives from the caught panic (or the World-init error text)",
                 f"{name} is not built from the caught panic payload")
+    # ... wherever it happens in the attempt routine: no instantiation of a crate-local generic wrapper that puts its argument into a
+    # new `Arc` (coerce_into_info) with the caught payload's type `Box<dyn Any + Send>` — called directly or handed to a combinator
+    # (`.map_err(coerce_into_info)`) — the payload has to be converted (`Info::from`, `.into()`), which keeps the inner value
+    keys = {b.key for b in bodies}
+    wrappers = {}
+    for site, how, f in F.fn_refs(r"."):
+        if site.body.key not in keys or not f.get("local"):
+            continue
+        if not any("dyn std::any::Any" in ta and ta.startswith("std::boxed::Box<") for ta in f.get("targs", [])):
+            continue
+        cb = F.body(f.get("res") or f["path"], site.body.crate) or F.body(f["path"], site.body.crate)
+        if cb is None:
+            continue
+        if cb.key not in wrappers:
+            wrappers[cb.key] = any(callee_is(t2, r"Arc::<.*>::new$") for nb in F.nested(cb) for _, t2 in nb.calls())
+        if wrappers[cb.key]:
+            R.violation(f"payload-not-rewrapped/any-site@{F.root_fn(site.body).short.rsplit('::', 1)[-1]}", site,
+                        f"`{cb.short}` is instantiated with the caught panic payload's type (Box<dyn Any + Send>) ({how}): the payload is wrapped as a value "
+                        "into a new Arc instead of being converted — downcasting it to String / &str / user types fails")
     R.floor(4)
 
 
